@@ -4905,6 +4905,10 @@ int func_body_emit_ffi(func * func_value, module * module_value,
     return 0;
 }
 
+#ifdef NEVER_VERIF
+void (*never_verif_func_hook)(unsigned int addr, unsigned int params_count) = NULL;
+#endif
+
 int func_body_emit_native(func * func_value, module * module_value,
                           func_list_weak * list_weak, int * result)
 {
@@ -4915,6 +4919,14 @@ int func_body_emit_native(func * func_value, module * module_value,
     bc.type = BYTECODE_FUNC_DEF;
     labelA = bytecode_add(module_value->code, &bc);
     func_value->addr = labelA->addr;
+#ifdef NEVER_VERIF
+    if (never_verif_func_hook != NULL)
+    {
+        never_verif_func_hook(labelA->addr,
+                              (func_value->decl != NULL && func_value->decl->params != NULL)
+                                  ? func_value->decl->params->count : 0);
+    }
+#endif
 
     if (func_value->body && func_value->body->exprs)
     {
